@@ -17,6 +17,8 @@ RULE = ('Vector-type TTs of order 2..5 (mode sizes 1..4, real/complex) in three 
         'singular values, isometry of contract(u) and contract(v), reconstruction (best rank-k part under a cut), '
         'pinv == pinv(M, rcond)^H, input bit-identical when overwrite is False. Non-trivial: complex, rank-deficient, split not '
         'at the last bond, a real cut, or order >= 4.')
+RULE += (' ' + 'Added classes: prescribed spectra over eight decades under a random gauge, long modes, side cores orthonormal only to 3e-6 or single precision, NumPy-scalar threshold / max_rank; the input of a call without overwrite is compared bit by bit.')
+
 ASSUMPTIONS = [
     'column dimensions are 1 (documented: non-operator tensor trains)',
     'real cuts (threshold or max_rank that discards non-negligible singular values) only on inputs whose factors left/right of '
